@@ -271,6 +271,12 @@ Proof.
   destruct (str_eqb k k'); [intros E; injection E as <-; exact Hv | apply IH; exact Hr].
 Qed.
 
+Lemma assoc_get_In : forall {V} (d : list (str * V)) k v, assoc_get d k = Some v -> In v (map snd d).
+Proof.
+  intros V d k v. induction d as [|[k' v'] r IH]; cbn [assoc_get map snd In]; [discriminate|].
+  destruct (str_eqb k k'); [intros E; injection E as <-; left; reflexivity | intros H; right; apply IH; exact H].
+Qed.
+
 (* facts about the regenerated tables *)
 Lemma aliases_ok :
   forallb (fun r => (0 <? fst r) && str_mem (snd r) VALID_UNITS) (map snd INTERVAL_ALIASES) = true.
@@ -313,3 +319,213 @@ Lemma bridge_tables :
   SHORT_UNITS = m_SHORT_UNITS /\ WEEKDAY_OFFSETS = m_WEEKDAY_OFFSETS /\ MONTH_OFFSETS = m_MONTH_OFFSETS /\
   ALLOWED_SLOTS_BY_UNIT = m_ALLOWED_SLOTS_BY_UNIT.
 Proof. repeat split; vm_compute; reflexivity. Qed.
+
+(* ---------------- _parse_slot raises nothing but ValueError (or timedelta's OverflowError) ---------------- *)
+Lemma str_eqb_eq : forall a b, str_eqb a b = true <-> a = b.
+Proof.
+  induction a as [|x a IH]; destruct b as [|y b]; cbn [str_eqb]; try (split; [discriminate|discriminate]).
+  - split; reflexivity.
+  - rewrite andb_true_iff, Z.eqb_eq, IH. split; [intros [-> ->]; reflexivity | intros E; injection E; auto].
+Qed.
+
+Lemma assoc_mem_find : forall {V} (d : list (str * V)) k,
+  assoc_mem d k = true -> exists v, assoc_find d k = Val v /\ assoc_get d k = Some v.
+Proof.
+  intros V d k. unfold assoc_mem, assoc_find. destruct (assoc_get d k) as [v|]; [|discriminate].
+  intros _. exists v. split; reflexivity.
+Qed.
+
+Definition S_weeks : str := [119; 101; 101; 107; 115].
+Definition S_seconds : str := [115; 101; 99; 111; 110; 100; 115].
+Definition td_units : list str := [S_weeks; S_days; S_hours; S_minutes; S_seconds].
+Definition unit_okb (u : str) : bool := str_eqb u S_months || str_eqb u S_years || str_mem u td_units.
+Definition slot_types : list str :=
+  [[100; 97; 116; 101]; [109; 100; 97; 121]; [119; 100; 97; 121]; [116; 105; 109; 101]; [109; 105; 110; 115]; S_delta].
+
+(* facts about the regenerated tables *)
+Lemma short_units_ok : forallb unit_okb (map snd SHORT_UNITS) = true.
+Proof. vm_compute. reflexivity. Qed.
+Lemma allowed_types_ok :
+  forallb (fun l => forallb (fun t => str_mem t slot_types) l) ([S_delta] :: map snd ALLOWED_SLOTS_BY_UNIT) = true.
+Proof. vm_compute. reflexivity. Qed.
+
+Lemma str_mem_In : forall k l, str_mem k l = true <-> In k l.
+Proof.
+  intros k. induction l as [|x t IH]; cbn [str_mem In]; [split; [discriminate|tauto]|].
+  destruct (str_eqb k x) eqn:E.
+  - apply str_eqb_eq in E. subst. tauto.
+  - rewrite IH. split; [tauto|]. intros [->|H]; [|exact H].
+    assert (str_eqb k k = true) by (apply str_eqb_eq; reflexivity). congruence.
+Qed.
+
+Section SlotErrors.
+  Context {T TD date tz smatch : Type} (P : prims T TD date tz smatch).
+  Local Notation G m name := (p_group P m name).
+
+  Definition ok_exn (e : pyexn) : Prop := e = ValueError \/ e = OverflowError.
+  Definition res_ok (r : exc (list (Z * str))) : Prop :=
+    match r with Exn e => e = ValueError | Val l => Forall (fun cu => unit_okb (snd cu) = true) l end.
+
+  (* assumed of the opaque primitives (monitored by the harness) *)
+  Hypothesis Hint : forall x e, p_int P x = Exn e -> e = ValueError.
+  Hypothesis Htd : forall u n e, In u td_units -> p_td_unit P u n = Exn e -> e = OverflowError.
+  (* assumed of _SLOT_RE: when the group of a slot type took part, so did the groups its parser reads *)
+  Hypothesis Hdate : forall m, ostr_truthy (G m [100; 97; 116; 101]) = true ->
+    G m [109; 111; 110; 116; 104; 95; 100; 97; 121] <> None /\
+    (ostr_truthy (G m [109; 111; 110; 116; 104; 95; 110; 97; 109; 101]) = true \/
+     G m [109; 111; 110; 116; 104; 95; 110; 117; 109] <> None).
+  Hypothesis Hmday : forall m, ostr_truthy (G m [109; 100; 97; 121]) = true ->
+    G m [109; 111; 110; 116; 104; 95; 100; 97; 121; 50] <> None.
+  Hypothesis Hwday : forall m, ostr_truthy (G m [119; 100; 97; 121]) = true ->
+    G m [119; 101; 101; 107; 100; 97; 121] <> None.
+  Hypothesis Htime : forall m, ostr_truthy (G m [116; 105; 109; 101]) = true -> G m [104; 111; 117; 114; 115] <> None.
+  Hypothesis Hmins : forall m, ostr_truthy (G m [109; 105; 110; 115]) = true ->
+    G m [109; 105; 110; 117; 116; 101; 115; 50] <> None.
+  Hypothesis Hdelta : forall m, ostr_truthy (G m S_delta) = true -> G m [99; 111; 117; 110; 116] <> None.
+
+  Lemma int_o_err : forall o e, o <> None -> py_int_o (p_int P) o = Exn e -> e = ValueError.
+  Proof. intros [s|] e Hn H; [exact (Hint s e H)|congruence]. Qed.
+
+  Lemma int_or_err : forall o d e, py_int_or (p_int P) o d = Exn e -> e = ValueError.
+  Proof.
+    intros o d e. unfold py_int_or. destruct (ostr_truthy o) eqn:Ht; [|discriminate].
+    apply int_o_err. destruct o; [discriminate|discriminate].
+  Qed.
+
+  Lemma lower_truthy : forall f o, ostr_truthy o = true -> exists s, ostr_lower f o = Val s.
+  Proof. intros f [s|] H; [exists (f s); reflexivity|discriminate]. Qed.
+
+  Lemma lower_some : forall f o, o <> None -> exists s, ostr_lower f o = Val s.
+  Proof. intros f [s|] H; [exists (f s); reflexivity|congruence]. Qed.
+
+  Ltac ok_units := repeat constructor.
+
+  Lemma slot_mday_ok : forall m, ostr_truthy (G m [109; 100; 97; 121]) = true -> res_ok (m_slot_mday P m).
+  Proof.
+    intros m Ht. unfold m_slot_mday. destruct (py_int_o _ _) as [v|e] eqn:E; cbn [bind res_ok]; [ok_units|].
+    eapply int_o_err; [apply Hmday; exact Ht | exact E].
+  Qed.
+
+  Lemma slot_mins_ok : forall m, ostr_truthy (G m [109; 105; 110; 115]) = true -> res_ok (m_slot_mins P m).
+  Proof.
+    intros m Ht. unfold m_slot_mins. destruct (py_int_o _ _) as [v|e] eqn:E; cbn [bind res_ok]; [ok_units|].
+    eapply int_o_err; [apply Hmins; exact Ht | exact E].
+  Qed.
+
+  Lemma slot_wday_ok : forall wo m, ostr_truthy (G m [119; 100; 97; 121]) = true -> res_ok (m_slot_wday P wo m).
+  Proof.
+    intros wo m Ht. unfold m_slot_wday.
+    destruct (lower_some (p_lower P) _ (Hwday m Ht)) as [w ->]. cbn [bind].
+    destruct (assoc_mem wo w) eqn:Em; [|reflexivity].
+    destruct (assoc_mem_find _ _ Em) as (v & -> & _). cbn [bind res_ok]. ok_units.
+  Qed.
+
+  Lemma slot_time_ok : forall m, ostr_truthy (G m [116; 105; 109; 101]) = true -> res_ok (m_slot_time P m).
+  Proof.
+    intros m Ht. unfold m_slot_time.
+    destruct (py_int_o _ _) as [h|e] eqn:E; cbn [bind]; [|eapply int_o_err; [apply Htime; exact Ht | exact E]].
+    destruct (py_int_or _ _ _) as [mi|e] eqn:E2; cbn [bind]; [|eapply int_or_err; exact E2].
+    cbv zeta. destruct (ostr_truthy (ostr_or _ _)) eqn:Ea; [|cbn [res_ok]; ok_units].
+    destruct (lower_truthy (p_lower P) _ Ea) as [a ->]. cbn [bind res_ok]. ok_units.
+  Qed.
+
+  Lemma slot_date_ok : forall mo m, ostr_truthy (G m [100; 97; 116; 101]) = true -> res_ok (m_slot_date P mo m).
+  Proof.
+    intros mo m Ht. destruct (Hdate m Ht) as [Hd Hn]. unfold m_slot_date.
+    destruct (py_int_o _ _) as [d|e] eqn:E; cbn [bind]; [|eapply int_o_err; [exact Hd | exact E]].
+    cbv zeta. destruct (ostr_truthy (G m [109; 111; 110; 116; 104; 95; 110; 97; 109; 101])) eqn:En.
+    - destruct (lower_truthy (p_lower P) _ En) as [a ->]. cbn [bind].
+      destruct (assoc_mem mo a) eqn:Em; [|reflexivity].
+      destruct (assoc_mem_find _ _ Em) as (v & -> & _). cbn [bind res_ok]. ok_units.
+    - destruct Hn as [Hn|Hn]; [congruence|].
+      destruct (py_int_o (p_int P) (G m [109; 111; 110; 116; 104; 95; 110; 117; 109])) as [k|e] eqn:E2;
+        cbn [bind res_ok]; [ok_units|].
+      eapply int_o_err; [exact Hn | exact E2].
+  Qed.
+
+  Lemma slot_delta_ok : forall m, ostr_truthy (G m S_delta) = true -> res_ok (m_slot_delta P SHORT_UNITS m).
+  Proof.
+    intros m Ht. unfold m_slot_delta.
+    destruct (py_int_o _ _) as [c|e] eqn:E; cbn [bind]; [|eapply int_o_err; [apply Hdelta; exact Ht | exact E]].
+    cbv zeta. destruct (ostr_mem_dict SHORT_UNITS _) eqn:Em; [|reflexivity].
+    unfold ostr_mem_dict in Em. unfold assoc_find_o.
+    destruct (p_group P m [117; 110; 105; 116]) as [u|]; [|discriminate].
+    destruct (assoc_mem_find _ _ Em) as (v & -> & Hg). cbn [bind res_ok].
+    constructor; [|constructor]. cbn [snd]. exact (assoc_get_forall unit_okb _ _ _ short_units_ok Hg).
+  Qed.
+
+  Lemma add_interval_err : forall d n u e,
+    unit_okb u = true -> m_add_interval P d n u = Exn e -> e = OverflowError.
+  Proof.
+    intros d n u e Hu. unfold m_add_interval, unit_okb in *.
+    destruct (str_eqb u S_months); [discriminate|]. destruct (str_eqb u S_years); [discriminate|].
+    cbn [orb] in Hu. apply str_mem_In in Hu.
+    destruct (p_td_unit P u n) as [x|e'] eqn:E; cbn [bind]; [discriminate|].
+    intros H. injection H as <-. exact (Htd u n e' Hu E).
+  Qed.
+
+  Lemma add_units_err : forall l d seen e,
+    Forall (fun cu => unit_okb (snd cu) = true) l -> m_add_units P l d seen = Exn e -> ok_exn e.
+  Proof.
+    induction l as [|[c u] r IH]; intros d seen e Hl; cbn [m_add_units]; [discriminate|].
+    inversion Hl as [|x y Hu Hr]; subst. cbn [snd] in Hu.
+    destruct (m_add_interval P d c u) as [d'|e'] eqn:E; cbn [bind].
+    - destruct (str_mem u seen); [intros H; injection H as <-; left; reflexivity | apply IH; exact Hr].
+    - intros H. injection H as <-. right. exact (add_interval_err d c u e' Hu E).
+  Qed.
+
+  Lemma first_type_spec : forall types m t,
+    m_first_type P types m = Some t -> In t types /\ ostr_truthy (G m t) = true.
+  Proof.
+    induction types as [|x r IH]; intros m t; cbn [m_first_type]; [discriminate|].
+    destruct (ostr_truthy (G m x)) eqn:E.
+    - intros H. injection H as <-. split; [left; reflexivity|exact E].
+    - intros H. destruct (IH m t H) as [Hin Ht]. split; [right; exact Hin|exact Ht].
+  Qed.
+
+  Lemma slot_parsers_ok : forall t m,
+    In t slot_types -> ostr_truthy (G m t) = true ->
+    res_ok (m_slot_parsers P MONTH_OFFSETS WEEKDAY_OFFSETS SHORT_UNITS t m).
+  Proof.
+    intros t m Hin Ht. unfold slot_types in Hin. cbn [In] in Hin.
+    destruct Hin as [<-|[<-|[<-|[<-|[<-|[<-|[]]]]]]].
+    - apply (slot_date_ok MONTH_OFFSETS m Ht).
+    - apply (slot_mday_ok m Ht).
+    - apply (slot_wday_ok WEEKDAY_OFFSETS m Ht).
+    - apply (slot_time_ok m Ht).
+    - apply (slot_mins_ok m Ht).
+    - apply (slot_delta_ok m Ht).
+  Qed.
+
+  Lemma parse_parts_err : forall allowed parts d seen e,
+    (forall t, In t allowed -> In t slot_types) ->
+    m_parse_parts P (m_slot_parsers P MONTH_OFFSETS WEEKDAY_OFFSETS SHORT_UNITS) allowed parts d seen = Exn e ->
+    ok_exn e.
+  Proof.
+    intros allowed parts. induction parts as [|p r IH]; intros d seen e Ha; cbn [m_parse_parts]; [discriminate|].
+    unfold m_parse_part. destruct (p_slot_match P p) as [m|]; [|intros H; injection H as <-; left; reflexivity].
+    destruct (m_first_type P allowed m) as [t|] eqn:Ef; [|intros H; injection H as <-; left; reflexivity].
+    destruct (first_type_spec _ _ _ Ef) as [Hin Ht].
+    pose proof (slot_parsers_ok t m (Ha t Hin) Ht) as Hok.
+    destruct (m_slot_parsers P MONTH_OFFSETS WEEKDAY_OFFSETS SHORT_UNITS t m) as [l|e'] eqn:Ep; cbn [bind res_ok] in *.
+    - destruct (m_add_units P l d seen) as [[d' seen']|e'] eqn:Eu; cbn [bind fst snd].
+      + apply IH. exact Ha.
+      + intros H. injection H as <-. exact (add_units_err l d seen e' Hok Eu).
+    - intros H. injection H as <-. left. exact Hok.
+  Qed.
+
+  Theorem parse_slot_errors : forall s u e,
+    parse_slot P s u = Exn e -> ok_exn e.
+  Proof.
+    intros s u e. rewrite bridge_parse_slot. unfold m_parse_slot.
+    destruct (p_split P s) as [|p ps]; [intros H; injection H as <-; left; reflexivity|].
+    apply parse_parts_err. intros t Hin.
+    pose proof allowed_types_ok as Hall. rewrite forallb_forall in Hall.
+    assert (Hlist : forall l, In l ([S_delta] :: map snd ALLOWED_SLOTS_BY_UNIT) -> forall t0, In t0 l -> In t0 slot_types).
+    { intros l Hl t0 Ht0. specialize (Hall l Hl). rewrite forallb_forall in Hall. apply str_mem_In, Hall, Ht0. }
+    unfold olist_or in Hin. destruct (assoc_get ALLOWED_SLOTS_BY_UNIT u) as [[|x l]|] eqn:Eg.
+    - apply (Hlist [S_delta]); [left; reflexivity|exact Hin].
+    - apply (Hlist (x :: l)); [right; exact (assoc_get_In _ _ _ Eg)|exact Hin].
+    - apply (Hlist [S_delta]); [left; reflexivity|exact Hin].
+  Qed.
+End SlotErrors.
